@@ -10,8 +10,8 @@ ZFLAG=""; grep -q '"needs_usingz": *true' $OUT/meta.json 2>/dev/null && ZFLAG="-
 cmake -G Ninja -S CPP -B _b -DCMAKE_BUILD_TYPE=RelWithDebInfo -DUSE_EXTERNAL_GTEST=ON -DCLIPPER2_EXAMPLES=OFF >/dev/null 2>&1 && cmake --build _b -j8 >/dev/null 2>&1
 BUILD=$?
 TESTS=$(ctest --test-dir _b -j8 2>&1 | grep "tests passed" )
-g++ -std=c++17 -O1 $ZFLAG -I$WT/CPP/Clipper2Lib/include $OUT/demo.cpp $WT/CPP/Clipper2Lib/src/*.cpp -o /tmp/demo-$NAME-mut 2>/dev/null; /tmp/demo-$NAME-mut >/dev/null 2>&1; MUT=$?
-g++ -std=c++17 -O1 $ZFLAG -I/repo/CPP/Clipper2Lib/include $OUT/demo.cpp /repo/CPP/Clipper2Lib/src/*.cpp -o /tmp/demo-$NAME-orig 2>/dev/null; /tmp/demo-$NAME-orig >/dev/null 2>&1; ORIG=$?
+g++ -std=c++17 -O1 -pthread $ZFLAG -I$WT/CPP/Clipper2Lib/include $OUT/demo.cpp $WT/CPP/Clipper2Lib/src/*.cpp -o /tmp/demo-$NAME-mut 2>/dev/null; /tmp/demo-$NAME-mut >/dev/null 2>&1; MUT=$?
+g++ -std=c++17 -O1 -pthread $ZFLAG -I/repo/CPP/Clipper2Lib/include $OUT/demo.cpp /repo/CPP/Clipper2Lib/src/*.cpp -o /tmp/demo-$NAME-orig 2>/dev/null; /tmp/demo-$NAME-orig >/dev/null 2>&1; ORIG=$?
 echo "RESULT $NAME: build_rc=$BUILD tests='$TESTS' demo_with_change_rc=$MUT demo_without_rc=$ORIG"
 rm -f /tmp/demo-$NAME-mut /tmp/demo-$NAME-orig
 cd /; git -C /repo worktree remove --force $WT
